@@ -2210,8 +2210,8 @@ func (d *Data) StoreBlocks(ctx *datastore.VersionedCtx, r io.Reader, kafkaOff bo
 		return 0, err
 	}
 
-	// d.Lock()
-	// defer d.Unlock()
+	d.Lock()
+	defer d.Unlock()
 
 	// Do modifications under a batch.
 	store, err := d.KVStore()
@@ -2277,8 +2277,8 @@ func (d *Data) StoreElements(ctx *datastore.VersionedCtx, r io.Reader, kafkaOff 
 		return err
 	}
 
-	// d.Lock()
-	// defer d.Unlock()
+	d.Lock()
+	defer d.Unlock()
 
 	dvid.Infof("%d annotation elements received via POST\n", len(elems))
 	dvid.VerifPoint("yield:annotation.StoreElements:entry")
@@ -2374,8 +2374,8 @@ func (d *Data) DeleteElement(ctx *datastore.VersionedCtx, pt dvid.Point3d, kafka
 	bcoord := pt.Chunk(blockSize).(dvid.ChunkPoint3d)
 	tk := NewBlockTKey(bcoord)
 
-	// d.Lock()
-	// defer d.Unlock()
+	d.Lock()
+	defer d.Unlock()
 	dvid.VerifPoint("yield:annotation.DeleteElement:entry")
 
 	elems, err := getElements(ctx, tk)
@@ -2453,8 +2453,8 @@ func (d *Data) MoveElement(ctx *datastore.VersionedCtx, from, to dvid.Point3d, k
 	toCoord := to.Chunk(blockSize).(dvid.ChunkPoint3d)
 	toTk := NewBlockTKey(toCoord)
 
-	// d.Lock()
-	// defer d.Unlock()
+	d.Lock()
+	defer d.Unlock()
 	dvid.VerifPoint("yield:annotation.MoveElement:entry")
 
 	// Alter all stored versions of this annotation using a batch.
